@@ -151,7 +151,7 @@ theorem c16_routing_tied : RoutingTied := by
 example : (SJ.Gen.routeOwned.lookup "deserialize_char") = some "->deserialize_string" := by rfl
 example : (SJ.Gen.routeRef.lookup "deserialize_char") = some "->deserialize_str" := by rfl
 
-/-- **C16, the text leg (`_partial`: everything of the claim but `arbitrary_precision`).** For every schema of the fragment `agreeFrag2` — bool, the twelve integer targets (8–128 bit),
+/-- **C16, the text leg (`_partial`: the builds without `arbitrary_precision`; with it: `c16_text_agrees_ap_partial`).** For every schema of the fragment `agreeFrag2` — bool, the twelve integer targets (8–128 bit),
     `f64`, char, `String`, byte buffers, unit / unit structs, `Option`, newtype structs, `Vec`, fixed-length tuples, maps with
     EVERY key kind (string, the twelve integer widths, bool, char, unit-variant enums; arbitrary key strings, accepted or not),
     structs (with and without `deny_unknown_fields`; from arrays and from objects, unknown / duplicate / missing fields as
@@ -177,7 +177,7 @@ example : (SJ.Gen.routeRef.lookup "deserialize_char") = some "->deserialize_str"
     an exponent (`floatsPointed ext v`; true of `ryu`, part of `RyuShortest`, vacuous without floats or without 128-bit
     targets). The proviso is needed: a printer writing `1e20` as `100000000000000000000` would make `from_str::<i128>`
     accept what `from_value::<i128>` refuses.
-    Missing (named): `arbitrary_precision` (literal-backed numbers). The text is the one the serializer model writes
+    `arbitrary_precision` (literal-backed numbers) is `c16_text_agrees_ap_partial` (`Props/C16Ap.lean`). The text is the one the serializer model writes
     (`c03_value`). -/
 theorem c16_text_agrees_partial (mcfg : Model.Machine.Cfg) (hap : mcfg.ap = false) (src : Model.Machine.Src)
     (ext : Spec.Program.Ext) (hext : Spec.Program.ExtOK ext) (ext' : Ext) (s : Schema) (hs : Proofs.Typed.agreeFrag2 s = true)
